@@ -40,6 +40,7 @@ def run(ctx):
     reveal_classes(ctx, facts)
     malsec.shuffle_order(ctx, facts, "ORDER-shuffle")
     malsec.hash_guards(ctx, facts, "GUARD-shuffle-hash")
+    malsec.shuffle_verify_path(ctx, facts, "PATH-shuffle-verify")
     malsec.malicious_reveal_guard(ctx, facts, "GUARD-reveal")
     malsec.mac_validate_guard(ctx, facts, "GUARD-mac")
     malsec.padding_guard(ctx, facts, "GUARD-padding")
